@@ -21,6 +21,18 @@ package graph
 //@   allocates
 //@   ensures fresh(r) || len(r) == 0
 //@   ensures forall i int :: 0 <= i && i < len(r) ==> 0 <= r[i] && r[i] < gorder(g) && gedge(g, u, r[i])
+//@   ensures forall y int :: { gedge(g, u, y) } gedge(g, u, y) ==> (exists i int :: 0 <= i && i < len(r) && r[i] == y)
+
+// Ghost state of the search: the order in which nodes were finished (left the
+// stack). It is the witness that a graph accepted as acyclic has no cycle:
+// along every edge the finishing number strictly decreases.
+//@ ghost var $dfsFin mmap[Int]Int
+//@ ghost var $dfsCnt Int
+//@ pure func black(info cycleInfo, v Int) Bool = info[v].Visited && !info[v].OnStack
+// finished nodes only point to finished nodes that were finished earlier
+//@ pure func finishedClosed(g Any, info cycleInfo) Bool =
+//@   (forall x int, y int :: { gedge(g, x, y) } 0 <= x && x < len(info) && 0 <= y && y < len(info) && black(info, x) && gedge(g, x, y) ==> black(info, y) && $dfsFin[y] < $dfsFin[x])
+//@   && (forall x int :: 0 <= x && x < len(info) && black(info, x) ==> $dfsFin[x] < $dfsCnt)
 
 // A closed path of the graph: at least one edge, ends where it starts, every
 // step is an edge.
@@ -49,9 +61,21 @@ package graph
 //@   requires pathOK(g, path0) && (len(path0) > 0 ==> gedge(g, path0[len(path0) - 1], u))
 //@   requires stackOnPath(info, path0)
 //@   requires info.arr != path0.arr || len(info) == 0
-//@   modifies elems(cycleNode), elems(int)
+//@   requires finishedClosed(g, info)
+//@   modifies elems(cycleNode), elems(int), $dfsFin, $dfsCnt
 //@   allocates
 //@   let es = ret(EdgesFrom_1, 0)
+//@   ghostset $dfsFin = (len(cycle) == 0 && !old(info[u].Visited)) ? mapset($dfsFin, u, $dfsCnt) : $dfsFin
+//@   ghostset $dfsCnt = (len(cycle) == 0 && !old(info[u].Visited)) ? $dfsCnt + 1 : $dfsCnt
+//@   ensures[C05:finished-node-points-to-earlier-finished-nodes] len(cycle) == 0 && !old(info[u].Visited) ==> (forall y int :: { gedge(g, u, y) } 0 <= y && y < len(info) && gedge(g, u, y) ==> black(info, y) && $dfsFin[y] < $dfsFin[u])
+//@   ensures[C05:no-finished-node-points-to-an-unfinished-one] len(cycle) == 0 ==> (forall x int, y int :: { gedge(g, x, y) } 0 <= x && x < len(info) && 0 <= y && y < len(info) && x != u && black(info, x) && gedge(g, x, y) ==> black(info, y) && $dfsFin[y] < $dfsFin[x])
+//@   ensures[C05:finishing-numbers-stay-below-the-counter] len(cycle) == 0 ==> (forall x int :: 0 <= x && x < len(info) && black(info, x) ==> $dfsFin[x] < $dfsCnt)
+//@   ensures[C05:search-keeps-finished-nodes-closed] len(cycle) == 0 ==> finishedClosed(g, info)
+//@   ensures[C05:a-searched-node-is-finished] len(cycle) == 0 && !old(info[u].OnStack) ==> black(info, u)
+//@   ensures[C05:finished-nodes-stay-finished] len(cycle) == 0 ==> (forall x int :: 0 <= x && x < len(info) && old(black(info, x)) ==> black(info, x) && $dfsFin[x] == old($dfsFin[x])) && $dfsCnt >= old($dfsCnt)
+//@   loop range g.EdgesFrom(u) #1: invariant[C05:dfs-successors-finished-so-far] forall j int :: 0 <= j && j < $i ==> black(info, es[j]) && $dfsFin[es[j]] < $dfsCnt
+//@   loop range g.EdgesFrom(u) #1: invariant[C05:dfs-finished-closed-so-far] finishedClosed(g, info) && $dfsCnt >= old($dfsCnt) && !old(info[u].Visited) && !black(info, u)
+//@        && (forall x int :: 0 <= x && x < len(info) && old(black(info, x)) ==> black(info, x) && $dfsFin[x] == old($dfsFin[x]))
 //@   ensures[C05:cycle-is-closed-path] len(cycle) > 0 ==> closedPath(g, cycle)
 //@   ensures[C05:cycle-nodes-in-range] forall i int :: 0 <= i && i < len(cycle) ==> 0 <= cycle[i] && cycle[i] < gorder(g)
 //@   ensures[C05:no-cycle-restores-stack] len(cycle) == 0 ==> (forall v int :: 0 <= v && v < len(info) ==> info[v].OnStack == old(info[v].OnStack))
@@ -60,6 +84,7 @@ package graph
 //@   ensures[C05:search-keeps-the-path] keptExcept(path0.arr, elems(int)) && (forall i int :: 0 <= i && i < len(path0) ==> path0[i] == old(path0[i]))
 //@   loop range g.EdgesFrom(u) #1: invariant[C05:dfs-edges-stay-edges] (forall i int :: 0 <= i && i < len(es) ==> 0 <= es[i] && es[i] < gorder(g) && gedge(g, u, es[i]))
 //@        && (len(es) == 0 || es.arr != path.arr)
+//@   loop range g.EdgesFrom(u) #1: invariant[C05:dfs-edge-list-stays-complete] forall y int :: { gedge(g, u, y) } gedge(g, u, y) ==> (exists i int :: 0 <= i && i < len(es) && es[i] == y)
 //@   loop range g.EdgesFrom(u) #1: invariant[C05:dfs-path-is-a-walk] pathOK(g, path) && len(path) == len(path0) + 1 && path[len(path) - 1] == u
 //@   loop range g.EdgesFrom(u) #1: invariant[C05:dfs-stack-is-the-path] stackOnPath(info, path)
 //@        && (forall v int :: 0 <= v && v < len(info) ==> info[v].OnStack == (old(info[v].OnStack) || v == u))
@@ -73,7 +98,10 @@ package graph
 
 //@ func IsAcyclic(g) (ok, cycle)
 //@   requires g != nil
+//@   modifies $dfsFin, $dfsCnt
 //@   allocates
+//@   ensures[C05:accepted-graph-has-a-decreasing-finishing-order] ok ==> (forall x int, y int :: { gedge(g, x, y) } 0 <= x && x < gorder(g) && 0 <= y && y < gorder(g) && gedge(g, x, y) ==> $dfsFin[y] < $dfsFin[x])
+//@   loop for i < g.Order() #1: invariant[C05:roots-searched-so-far] (forall v int :: 0 <= v && v < len(info) ==> !info[v].OnStack) && (forall v int :: 0 <= v && v < i && v < len(info) ==> info[v].Visited) && finishedClosed(g, info)
 //@   ensures[C05:reported-cycle-is-a-closed-path] !ok ==> closedPath(g, cycle)
 //@   ensures[C05:reported-cycle-nodes-in-range] !ok ==> forall i int :: 0 <= i && i < len(cycle) ==> 0 <= cycle[i] && cycle[i] < gorder(g)
 //@   ensures[C05:acyclic-verdict-has-no-path] ok ==> len(cycle) == 0
